@@ -113,7 +113,7 @@ CHECKS["C05"] = {
     "design_ref": "DESIGN.md §5 E2, §6 C05",
     "rule": _STATEMC_RULE + _EDITS_RULE,
     "bounds": {"quick": "micro depth 4 (2 cfgs), macro depth 5 (2 cfgs), micro depth 3 with one callback deviation", "thorough": "micro depth 5, macro depth 7/6, deviations to depth 4, 4 cfgs"},
-    "mc_explanation": "states/transitions are those of the implementation itself (no model): the transition function is htp_connp_req_data/res_data/close on a replayed history",
+    "mc_explanation": "states/transitions are those of the implementation itself (no model): the transition function is htp_connp_req_data/res_data/close on a replayed history. Counts are summed over the 16 worker processes: a state or trace reached by several workers is counted by each of them, so 'states' is an upper bound of the distinct ones (single-process count for statemc micro depth 4: 8.9e5 against 1.25e6 summed).",
     "assumptions": ["token alphabets of mc/statemc.c", "exact canonical state (DESIGN §4.3)"],
     "jobs": lambda tier: _statemc("C05", tier, asan_too=False) + _edits(tier, cfgs=(0, 1)) + _bisim(tier),
 }
@@ -197,7 +197,7 @@ CHECKS["C09"] = {
     "design_ref": "DESIGN.md §6 C09",
     "rule": _STATEMC_RULE + "; plus cutmc pair/tunnel schedules" + _EDITS_RULE,
     "bounds": {"quick": "statemc micro 4 / macro 5, deviations depth 3, raw-order micro 3 / macro 4; C04 N<=3 and C16 schedules", "thorough": "one level deeper everywhere"},
-    "mc_explanation": "states/transitions of the implementation itself; stateless workloads add distinct callback traces / data calls",
+    "mc_explanation": "states/transitions of the implementation itself; stateless workloads add distinct callback traces / data calls. Counts are summed over the 16 worker processes: a state or trace reached by several workers is counted by each of them, so 'states' is an upper bound of the distinct ones (single-process count for statemc micro depth 4: 8.9e5 against 1.25e6 summed).",
     "assumptions": ["token alphabets of mc/statemc.c"],
     "jobs": lambda tier: _statemc("C09", tier, asan_too=False, raw_too=True) + [J("cutmc", "plain", ["--mode", "pair"]), J("cutmc", "plain", ["--mode", "tunnel"])] + _edits(tier, devs=True),
 }
@@ -295,7 +295,7 @@ CHECKS["C10"] = {
     "design_ref": "DESIGN.md §6 C10",
     "rule": _STATEMC_RULE + "; cutmc limits: limit x line kind x field length x all cut pairs; steady-state repetitions" + _EDITS_RULE,
     "bounds": {"quick": "statemc micro depth 4 (cfg 2) / 3 (cfg 5); limits {8,24,64} x 6 kinds x 8 lengths x all cut pairs; steady N=1000 x 52 exchanges", "thorough": "statemc one level deeper; steady N=10000"},
-    "mc_explanation": "states/transitions of the implementation; stateless workloads add distinct callback traces / data calls",
+    "mc_explanation": "states/transitions of the implementation; stateless workloads add distinct callback traces / data calls. Counts are summed over the 16 worker processes: a state or trace reached by several workers is counted by each of them, so 'states' is an upper bound of the distinct ones (single-process count for statemc micro depth 4: 8.9e5 against 1.25e6 summed).",
     "assumptions": ["token alphabets of mc/statemc.c", "slot grammar of mc/gen.c for the steady-state shapes"],
     "jobs": lambda tier: [J("statemc", "plain", ["--alphabet", "micro", "--depth", "4" if tier == "quick" else "5", "--cfg", "2"]),
                           J("statemc", "plain", ["--alphabet", "micro", "--depth", "3" if tier == "quick" else "4", "--cfg", "5"]),
@@ -319,7 +319,7 @@ CHECKS["C01"] = {
     "rule": _STATEMC_RULE + "; cutmc corpus: capture x cfg x {every single extra cut, 1/2/3-byte}" + _EDITS_RULE,
     "bounds": {"quick": "ASan: micro depth 3 with deviations to depth 3, macro depth 4 (auto-destroy) with deviations to depth 2, raw micro 3; plain leak pass micro 4 / macro 5; corpus single cuts",
                "thorough": "one level deeper everywhere, 6 configurations, corpus cut pairs within 24 bytes"},
-    "mc_explanation": "states/transitions of the implementation; corpus re-cuts add distinct callback traces / data calls",
+    "mc_explanation": "states/transitions of the implementation; corpus re-cuts add distinct callback traces / data calls. Counts are summed over the 16 worker processes: a state or trace reached by several workers is counted by each of them, so 'states' is an upper bound of the distinct ones (single-process count for statemc micro depth 4: 8.9e5 against 1.25e6 summed).",
     "assumptions": ["token alphabets of mc/statemc.c", "sanitizer coverage = clang 14 ASan+UBSan default checks"],
     "jobs": lambda tier: _c01_jobs(tier),
 }
